@@ -61,6 +61,9 @@ def run_case(case):
         specs_att = [{"timeline": timeline, "hs_extra": hs_extra, "hs_delay": case.get("hs_delay", 0.0)}]
     else:
         # the first connection is lost (end of stream); after the reconnect interval a second one is established
+        if case.get("dangling"):
+            # the first connection dies in the middle of a message / frame: nothing of it may reach a callback or the next connection
+            timeline.append([t_end - 0.5, ["data", case["dangling"]]])
         timeline.append([t_end, ["eof"]])
         tl2, t2_last = [], 0.0
         for dt, specs in second:
@@ -191,7 +194,7 @@ def _cls(obs, case):
     nt = multi or frag or bool(case.get("raise_in")) or case.get("secure") or case.get("second") is not None
     obs.cls = ("tls" if case.get("secure") else "plain", f"segments:{min(len(segs), 6)}", f"multi_frame_segment:{int(multi)}", f"fragmented:{int(frag)}",
                f"raising:{len(case.get('raise_in', []))}", f"hs_segment_frames:{int(any(s[0] == 0 for s in segs))}", f"callbacks:{len(case.get('callbacks', CBS))}", f"reconnected:{int(case.get('second') is not None)}")
-    obs.nt = repr((case.get("secure"), segs, sorted(case.get("callbacks", CBS)), sorted(case.get("raise_in", [])), case.get("second"), case.get("on_reconnect"))) if nt else None
+    obs.nt = repr((case.get("secure"), segs, sorted(case.get("callbacks", CBS)), sorted(case.get("raise_in", [])), case.get("second"), case.get("on_reconnect"), case.get("dangling"))) if nt else None
     return obs
 
 
@@ -201,6 +204,7 @@ def cases(draw):
     t = 0.0
     segs = []
     in_msg = False
+    tail = b""
     for i in range(nseg):
         if i == 0 and draw(st.integers(0, 4)) == 0:
             dt = 0  # same segment as the handshake response
@@ -215,20 +219,29 @@ def cases(draw):
                     frames.append({"fin": 1, "op": rm.PING if kind == "ping" else rm.PONG, "p": draw(st.binary(max_size=5))})
                 else:
                     fin = draw(st.integers(0, 2)) > 0
-                    frames.append({"fin": int(fin), "op": rm.CONT, "p": draw(rx.utf8_text)})
+                    if fin:
+                        part, tail = tail + draw(rx.utf8_text), b""
+                    else:
+                        k = draw(st.integers(0, len(tail)))  # may cut inside a multi-byte character
+                        part, tail = tail[:k], tail[k:]
+                    frames.append({"fin": int(fin), "op": rm.CONT, "p": part})
                     in_msg = not fin
             elif kind == "text":
                 frames.append({"fin": 1, "op": rm.TEXT, "p": draw(rx.utf8_text)})
             elif kind == "binary":
                 frames.append({"fin": 1, "op": rm.BINARY, "p": draw(st.binary(max_size=12))})
             elif kind == "frag":
-                frames.append({"fin": 0, "op": draw(st.sampled_from([rm.TEXT, rm.BINARY])), "p": draw(rx.utf8_text)})
+                full = draw(rx.utf8_text) + draw(st.sampled_from([b"", "é€😀".encode(), "€".encode()]))
+                k = draw(st.integers(0, len(full)))
+                tail = full[k:]
+                frames.append({"fin": 0, "op": draw(st.sampled_from([rm.TEXT, rm.BINARY])), "p": full[:k]})
                 in_msg = True
             else:
                 frames.append({"fin": 1, "op": rm.PING if kind == "ping" else rm.PONG, "p": draw(st.binary(max_size=5))})
         segs.append([dt, frames])
     if in_msg:
-        segs.append([t + 1.0, [{"fin": 1, "op": rm.CONT, "p": b"end"}]])
+        segs.append([t + 1.0, [{"fin": 1, "op": rm.CONT, "p": tail + b"end"}]])
+        in_msg = False
     cbs = draw(st.one_of(st.just(CBS), st.lists(st.sampled_from(CBS), unique=True, min_size=1).map(sorted)))
     raise_in = draw(st.one_of(st.just([]), st.lists(st.sampled_from(["on_open", "on_message", "on_data", "on_ping", "on_pong"]), unique=True, max_size=3).map(sorted)))
     c = {"segments": segs, "callbacks": cbs, "raise_in": [r for r in raise_in if r in cbs], "secure": draw(st.booleans()), "hs_delay": draw(st.sampled_from([0.0, 0.2]))}
@@ -240,6 +253,8 @@ def cases(draw):
             t2 += draw(st.sampled_from([0.01, 0.5, 3.0]))
             second.append([t2, draw(st.lists(st.sampled_from([{"fin": 1, "op": rm.TEXT, "p": b"again"}, {"fin": 1, "op": rm.BINARY, "p": b"\x01"}, {"fin": 1, "op": rm.PING, "p": b"q"}]), min_size=1, max_size=3))])
         c["second"] = second
+        if not in_msg and draw(st.booleans()):
+            c["dangling"] = draw(st.sampled_from([b"\x01\x03abc", b"\x02\x00", b"\x81\x7e\x01", b"\x82\x05ab", b"\x89", b"\x01\x02\xc3\xa9\x00\x01z"]))
         c["interval"] = draw(st.sampled_from([0.5, 2.0]))
         c["on_reconnect"] = draw(st.booleans())
     return c
